@@ -616,7 +616,9 @@ impl Program {
                     boundary_char_entrypoint + offset as u16,
                     false,
                 ),
-            })
+            });
+            // The instructions were rotated: keep the field pointing at the same instruction.
+            self.left_boundary_char_entrypoint = Some(boundary_char_entrypoint + offset as u16);
         }
         new_entrypoints
     }
